@@ -1396,16 +1396,18 @@ func (n *normalizer) switchInitRound() bool {
 	return changed
 }
 
-// paramSplitRound: a parameter of a struct type the reference tree does not have, used in the function only
-// through its fields, becomes one parameter per field; every call site passes the fields of its (side-effect
-// free) argument in field order. The call passes the same values as before — a struct argument is copied
-// at the call in both forms — and the function reads the same fields.
+// paramSplitRound: a parameter of a struct type the reference tree does not have (or a pointer to one), used in the
+// function only through its fields, becomes one parameter per field; every call site passes the fields of its argument in
+// field order. By value: the argument is a plain name (`f(x)` -> `f(x.a, x.b)`; a struct argument is copied at the call in
+// both forms). By pointer: the fields must only be read in the function, and every argument must be a keyed literal
+// `&T{a: e1, b: e2}` with side-effect-free values (-> `f(e1, e2)`, a field left out passes its zero value) or the
+// function's own parameter handed on.
 func (n *normalizer) paramSplitRound() bool {
 	valueUsed := n.funcValueUses()
-	// call sites by callee
 	type csite struct {
 		call     *ast.CallExpr
 		filename string
+		file     *ast.File
 	}
 	sites := map[*types.Func][]csite{}
 	for _, f := range n.pp.Syntax {
@@ -1413,7 +1415,7 @@ func (n *normalizer) paramSplitRound() bool {
 		ast.Inspect(f, func(x ast.Node) bool {
 			if call, ok := x.(*ast.CallExpr); ok {
 				if callee, _ := n.calleeOf(call); callee != nil {
-					sites[callee.Origin()] = append(sites[callee.Origin()], csite{call, filename})
+					sites[callee.Origin()] = append(sites[callee.Origin()], csite{call, filename, f})
 				}
 			}
 			return true
@@ -1432,7 +1434,6 @@ func (n *normalizer) paramSplitRound() bool {
 				continue
 			}
 			if fd.Recv != nil {
-				// a method of a generic type: leave
 				if sig, ok := fn.Type().(*types.Signature); ok && sig.RecvTypeParams().Len() > 0 {
 					continue
 				}
@@ -1455,7 +1456,13 @@ func (n *normalizer) paramSplitRound() bool {
 				if pobj == nil {
 					continue
 				}
-				named, ok := pobj.Type().(*types.Named)
+				pt := pobj.Type()
+				ptrMode := false
+				if p2, isPtr := pt.(*types.Pointer); isPtr {
+					pt = p2.Elem()
+					ptrMode = true
+				}
+				named, ok := pt.(*types.Named)
 				if !ok || named.Obj().Pkg() != n.pp.Types || headTypes[named.Obj().Name()] || named.TypeArgs().Len() > 0 {
 					continue
 				}
@@ -1472,28 +1479,77 @@ func (n *normalizer) paramSplitRound() bool {
 				if !okFields {
 					continue
 				}
-				// uses: only p.f
-				var sels []*ast.SelectorExpr
-				whole := false
-				selX := map[*ast.Ident]bool{}
+				// uses: only p.f (by pointer: read only)
+				parent := map[ast.Node]ast.Node{}
+				var stack []ast.Node
 				ast.Inspect(fd.Body, func(x ast.Node) bool {
-					if se, ok := x.(*ast.SelectorExpr); ok {
-						if id, ok := se.X.(*ast.Ident); ok && n.info.Uses[id] == types.Object(pobj) {
-							if sel := n.info.Selections[se]; sel != nil && sel.Kind() == types.FieldVal && len(sel.Index()) == 1 {
-								sels = append(sels, se)
-								selX[id] = true
+					if x == nil {
+						stack = stack[:len(stack)-1]
+						return true
+					}
+					if len(stack) > 0 {
+						parent[x] = stack[len(stack)-1]
+					}
+					stack = append(stack, x)
+					return true
+				})
+				var sels []*ast.SelectorExpr
+				selX := map[*ast.Ident]bool{}
+				good := true
+				ast.Inspect(fd.Body, func(x ast.Node) bool {
+					se, ok := x.(*ast.SelectorExpr)
+					if !ok {
+						return true
+					}
+					id, ok := se.X.(*ast.Ident)
+					if !ok || n.info.Uses[id] != types.Object(pobj) {
+						return true
+					}
+					sel := n.info.Selections[se]
+					if sel == nil || sel.Kind() != types.FieldVal || len(sel.Index()) != 1 {
+						return true
+					}
+					sels = append(sels, se)
+					selX[id] = true
+					if ptrMode {
+						switch pp := parent[se].(type) {
+						case *ast.AssignStmt:
+							for _, l := range pp.Lhs {
+								if l == ast.Expr(se) {
+									good = false
+								}
+							}
+						case *ast.IncDecStmt:
+							good = false
+						case *ast.UnaryExpr:
+							if pp.Op == token.AND {
+								good = false
+							}
+						case *ast.RangeStmt:
+							if pp.Key == ast.Expr(se) || pp.Value == ast.Expr(se) {
+								good = false
 							}
 						}
 					}
 					return true
 				})
+				// whole uses: only as the argument of a call of fn itself at the same position
+				cs := sites[fn]
+				selfArg := map[*ast.Ident]bool{}
+				for _, s := range cs {
+					if idx < len(s.call.Args) {
+						if id, ok := ast.Unparen(s.call.Args[idx]).(*ast.Ident); ok && n.info.Uses[id] == types.Object(pobj) {
+							selfArg[id] = true
+						}
+					}
+				}
 				ast.Inspect(fd.Body, func(x ast.Node) bool {
-					if id, ok := x.(*ast.Ident); ok && n.info.Uses[id] == types.Object(pobj) && !selX[id] {
-						whole = true
+					if id, ok := x.(*ast.Ident); ok && n.info.Uses[id] == types.Object(pobj) && !selX[id] && !selfArg[id] {
+						good = false
 					}
 					return true
 				})
-				if whole {
+				if !good || len(cs) == 0 {
 					continue
 				}
 				// names
@@ -1504,10 +1560,12 @@ func (n *normalizer) paramSplitRound() bool {
 					}
 					return true
 				})
-				names := make([]string, st.NumFields())
+				nf := st.NumFields()
+				names := make([]string, nf)
+				fieldIdx := map[string]int{}
 				var decls []string
-				good := true
-				for i := 0; i < st.NumFields(); i++ {
+				for i := 0; i < nf; i++ {
+					fieldIdx[st.Field(i).Name()] = i
 					nm := pobj.Name() + "_" + st.Field(i).Name()
 					for taken[nm] || n.pp.Types.Scope().Lookup(nm) != nil {
 						nm += "_"
@@ -1524,22 +1582,51 @@ func (n *normalizer) paramSplitRound() bool {
 				if !good {
 					continue
 				}
-				// call sites
-				cs := sites[fn]
-				if len(cs) == 0 {
-					continue
-				}
-				for _, s := range cs {
-					if idx >= len(s.call.Args) || s.call.Ellipsis.IsValid() || !syntacticallyPure(s.call.Args[idx]) {
-						good = false
-						break
+				// text of an expression with the selections of the parameter replaced by the new names
+				inArg := map[*ast.SelectorExpr]bool{}
+				subst := func(fname string, e ast.Expr) string {
+					src := n.content(fname)
+					from, to := n.off(e.Pos()), n.off(e.End())
+					type rep struct {
+						s, e int
+						t    string
 					}
-					if _, isLit := ast.Unparen(s.call.Args[idx]).(*ast.BasicLit); isLit {
+					var reps []rep
+					ast.Inspect(e, func(x ast.Node) bool {
+						if se, ok := x.(*ast.SelectorExpr); ok {
+							for _, s0 := range sels {
+								if s0 == se {
+									inArg[se] = true
+									reps = append(reps, rep{n.off(se.Pos()), n.off(se.End()), names[n.info.Selections[se].Index()[0]]})
+									return false
+								}
+							}
+						}
+						return true
+					})
+					sort.Slice(reps, func(i, j int) bool { return reps[i].s < reps[j].s })
+					var b strings.Builder
+					at := from
+					for _, r := range reps {
+						b.Write(src[at:r.s])
+						b.WriteString(r.t)
+						at = r.e
+					}
+					b.Write(src[at:to])
+					return b.String()
+				}
+				type argEdit struct {
+					fname string
+					s, e  int
+					text  string
+				}
+				var argEdits []argEdit
+				for _, s := range cs {
+					if idx >= len(s.call.Args) || s.call.Ellipsis.IsValid() {
 						good = false
 						break
 					}
 					if len(s.call.Args) == 1 {
-						// f(g()) with a multi-value g
 						if tv, ok := n.info.Types[s.call.Args[0]]; ok {
 							if _, isTuple := tv.Type.(*types.Tuple); isTuple {
 								good = false
@@ -1547,17 +1634,74 @@ func (n *normalizer) paramSplitRound() bool {
 							}
 						}
 					}
-					a := s.call.Args[idx]
-					if n.overlaps(s.filename, n.off(a.Pos()), n.off(a.End())) {
+					a := ast.Unparen(s.call.Args[idx])
+					var parts []string
+					switch x := a.(type) {
+					case *ast.Ident:
+						if n.info.Uses[x] == types.Object(pobj) {
+							parts = append(parts, names...)
+						} else if !ptrMode {
+							for i := 0; i < nf; i++ {
+								parts = append(parts, x.Name+"."+st.Field(i).Name())
+							}
+						} else {
+							good = false
+						}
+					case *ast.UnaryExpr:
+						lit, isLit := ast.Unparen(x.X).(*ast.CompositeLit)
+						if !ptrMode || x.Op != token.AND || !isLit {
+							good = false
+							break
+						}
+						vals := make([]string, nf)
+						for _, el := range lit.Elts {
+							kv, isKV := el.(*ast.KeyValueExpr)
+							if !isKV {
+								good = false
+								break
+							}
+							k, isId := kv.Key.(*ast.Ident)
+							if !isId || !pureExpr(kv.Value, n.info) {
+								good = false
+								break
+							}
+							i, known := fieldIdx[k.Name]
+							if !known || vals[i] != "" {
+								good = false
+								break
+							}
+							vals[i] = subst(s.filename, kv.Value)
+						}
+						if !good {
+							break
+						}
+						for i := 0; i < nf; i++ {
+							if vals[i] == "" {
+								vals[i] = n.zeroText(st.Field(i).Type(), s.file, s.filename)
+								if vals[i] == "" {
+									good = false
+								}
+							}
+						}
+						parts = vals
+					default:
 						good = false
+					}
+					if !good {
 						break
 					}
+					argEdits = append(argEdits, argEdit{s.filename, n.off(s.call.Args[idx].Pos()), n.off(s.call.Args[idx].End()), strings.Join(parts, ", ")})
 				}
 				if !good || n.overlaps(filename, n.off(fld.Pos()), n.off(fld.End())) {
 					continue
 				}
+				for _, ae := range argEdits {
+					if n.overlaps(ae.fname, ae.s, ae.e) {
+						good = false
+					}
+				}
 				for _, se := range sels {
-					if n.overlaps(filename, n.off(se.Pos()), n.off(se.End())) {
+					if !inArg[se] && n.overlaps(filename, n.off(se.Pos()), n.off(se.End())) {
 						good = false
 					}
 				}
@@ -1566,19 +1710,20 @@ func (n *normalizer) paramSplitRound() bool {
 				}
 				n.addEdit(filename, n.off(fld.Pos()), n.off(fld.End()), strings.Join(decls, ", "))
 				for _, se := range sels {
+					if inArg[se] {
+						continue
+					}
 					sel := n.info.Selections[se]
 					n.addEdit(filename, n.off(se.Pos()), n.off(se.End()), names[sel.Index()[0]])
 				}
-				for _, s := range cs {
-					a := s.call.Args[idx]
-					at := n.src(s.filename, a.Pos(), a.End())
-					var parts []string
-					for i := 0; i < st.NumFields(); i++ {
-						parts = append(parts, at+"."+st.Field(i).Name())
-					}
-					n.addEdit(s.filename, n.off(a.Pos()), n.off(a.End()), strings.Join(parts, ", "))
+				for _, ae := range argEdits {
+					n.addEdit(ae.fname, ae.s, ae.e, ae.text)
 				}
-				n.notes = append(n.notes, fmt.Sprintf("parameter %s of %s (struct type %s, used by field only) split into one parameter per field", pobj.Name(), fn.Name(), named.Obj().Name()))
+				mode := "struct"
+				if ptrMode {
+					mode = "pointer to struct"
+				}
+				n.notes = append(n.notes, fmt.Sprintf("parameter %s of %s (%s type %s, used by field only) split into one parameter per field", pobj.Name(), fn.Name(), mode, named.Obj().Name()))
 				changed = true
 				break // one parameter per function per round
 			}
